@@ -38,10 +38,11 @@ type Fault struct {
 	WriteErr bool   `json:"writeerr"` // cut: writer sees errors afterwards
 	DropRev  bool   `json:"droprev"`  // cut: reverse bytes in flight are dropped
 	// alter
-	AltKind string `json:"altkind,omitempty"` // "sub", "del", "ins", "pair"
-	Val     int    `json:"val,omitempty"`     // sub: xor value / ins: byte
-	At2     int    `json:"at2,omitempty"`     // pair: second offset
-	Delta   int    `json:"delta,omitempty"`   // pair: +delta at At, -delta at At2
+	AltKind string      `json:"altkind,omitempty"` // "sub", "del", "ins", "pair"
+	Val     int         `json:"val,omitempty"`     // sub: xor value / ins: byte
+	At2     int         `json:"at2,omitempty"`     // pair: second offset
+	Delta   int         `json:"delta,omitempty"`   // pair: +delta at At, -delta at At2
+	Set     map[int]int `json:"set,omitempty"`     // set: offset -> new byte value (targeted multi-byte change)
 }
 
 // TmpBase is where directory mailboxes are created.
@@ -148,6 +149,7 @@ func RunSession(sc *Scenario, st map[string]*Station, r *Recorder, configure fun
 	obs := newLinkObserver(r)
 	l.Obs = obs
 	if f := sc.Fault; f != nil {
+		l.DeadlineScale = 120 // the one-minute error-echo deadline of Exchange becomes 0.5 s
 		switch f.Kind {
 		case "cut":
 			l.CutDir, l.CutAt, l.CutWriteErr, l.CutDropRev = f.Dir, f.At, f.WriteErr, f.DropRev
@@ -264,6 +266,10 @@ func makeAlter(f *Fault) func(int, byte) []byte {
 		case "ins":
 			if off == f.At {
 				return []byte{byte(f.Val), b}
+			}
+		case "set":
+			if v, ok := f.Set[off]; ok {
+				return []byte{byte(v)}
 			}
 		case "pair":
 			if off == f.At {
